@@ -9,10 +9,10 @@ LEAN_MODULES = ["LccModel.Props.C05", "LccModel.Props.C05Run"]
 PROPS_FILES = ["LccModel/Props/C05.lean", "LccModel/Props/C05Run.lean"]
 NAMESPACES = {"LccModel/Props/C05.lean": "LccModel.C05", "LccModel/Props/C05Run.lean": "LccModel.C05Run"}
 DRIVER = "drivers/Run.lean"
-TRUSTED_BASE = RUN_TRUSTED + ["every N-thread run is compared with a 1-thread run of the same project by the oracle (timestamp-free normal forms, attachments by content)"]
+TRUSTED_BASE = RUN_TRUSTED + ["C05.sched: before the verified check runs, times are replaced by positions and thread ids by one id per (result location, real thread) in the N-thread stream, and the 1-thread stream is re-labelled with the labels of the matching N-thread events (harness/props/c05.py `relabel`); that such a re-labelling does not change the folded report is validated per pair (views_equal; C05.run folds the un-relabelled stream and compares it with the real report), not proved", "every N-thread run is compared with a 1-thread run of the same project by the oracle (timestamp-free normal forms, attachments by content)"]
 ASSUMPTIONS = RUN_ASSUMPTIONS + ["schedule-independent features only (profile 'independent': no Abort*, no --stop-on-failure, no per-thread fixtures); sibling ranks pairwise distinct (declared tests always have distinct ranks; tests added with add_test_into_suite get one since fix a149e47)"]
 RULE = 'generated project (harness/run/gen.py) × nb_threads 1..8 × gate strategy (off/fifo/lifo/random) forcing completion orders; non-trivial = ≥ 2 tests, ≥ 1 body entered, ≥ 8 events; distinct = hash of the case (project + schedule parameters); C05 additionally needs N ≥ 2 and a completion order that differs from the declaration order'
-EXPLANATION = "The writer's result is invariant under swaps of independent events and the rank-sorted view removes arrival order under distinct sibling ranks (Lean theorems); every N-thread run is replayed on the composed model (whose per-task outputs are functions of the project, not of the schedule) and compared by the oracle with the 1-thread run."
+EXPLANATION = "Two streams with the same events that order every two dependent events alike are swap-equivalent (projection lemma, Lemmas/WriterTrace.lean) and therefore fold to reports with the same content and, under distinct sibling ranks, equal views (report_independent_of_schedule); the hypotheses are decided by the verified boolean scheduleCheckB on every pair (N-thread run, 1-thread run) of real fired streams (stream C05.sched). The writer's result is invariant under swaps of independent events and the rank-sorted view removes arrival order under distinct sibling ranks (Lean theorems); every N-thread run is replayed on the composed model (whose per-task outputs are functions of the project, not of the schedule) and compared by the oracle with the 1-thread run."
 
 
 def witness(title_prefix):
@@ -57,5 +57,114 @@ class Run(PropRunStream):
         return case
 
 
+import re as _re
+from gen import reports as _R
+from run import observe as _O
+
+_ATT = _re.compile(r"^(attachments/)\d{4}_")
+
+
+def _key(e):
+    """what identifies an event across two schedules of one run: everything but thread id, time and the global
+    attachment counter"""
+    d = {k: v for k, v in e.items() if k not in ("tid", "t")}
+    if d.get("e") == "att" and isinstance(d.get("file"), str):
+        d["file"] = _ATT.sub(r"\1", d["file"])
+    return C.case_hash(d)
+
+
+def relabel(base, ref):
+    """the events of `base` (1-thread run), each carrying the thread id / time / attachment number of the event of `ref`
+    (N-thread run) with the same key and the same occurrence number; None when the two runs did not fire the same events"""
+    pool = {}
+    for e in ref:
+        pool.setdefault(_key(e), []).append(e)
+    out = []
+    for e in base:
+        lst = pool.get(_key(e))
+        if not lst:
+            return None
+        out.append(lst.pop(0))
+    return out if not any(pool.values()) else None
+
+
+class Sched(PropRunStream):
+    """The hypotheses of `C05.report_independent_of_schedule`, checked by the VERIFIED boolean `scheduleCheckB`
+    (Lemmas/WriterTrace.lean, theorem `checked_schedules_give_the_same_report`) on every pair (N-thread run, 1-thread run)
+    of real fired streams: same events, no event twice, every two dependent events in the same order, handled without
+    error by the writer.  The 1-thread stream is re-labelled with the thread ids / times of the matching N-thread events
+    (thread ids and times are the only things two schedules of one run may differ in)."""
+    name = "C05.sched"
+    prop = "C05"
+    driver = "drivers/C05.lean"
+    profile = "independent"
+    oracles = ()
+    threads = (2, 2, 3, 4, 8)
+    strategies = ("fifo", "lifo", "random", "random")
+    quick_cases = 90
+    quick_seconds = 25
+    thorough_cases = 900
+    thorough_seconds = 250
+    max_events = 170
+    corpus = [witness("(control) distinct ranks")] + W2.CONTROLS[:1]
+
+    def gen(self, rng, i):
+        case = super().gen(rng, i)
+        case["project"] = distinct_ranks(case["project"])
+        return case
+
+    def impl(self, case):
+        obs = _O.run_project(case["project"], strategy=case["strategy"], gate_seed=case["gseed"])
+        base = _O.run_project(dict(case["project"], nb_threads=1), strategy="off")
+        fired = lambda o: [r[2] for r in o["trace"] if r[0] == "fire"]
+        return {"outcome": obs["outcome"], "outcome1": base["outcome"], "fired": fired(obs), "fired1": fired(base),
+                "trace": [], "report": obs.get("report")}
+
+    def oracle(self, case, obs):
+        return []           # the statement-level comparison of the two reports is C05.run's oracle
+
+    def request(self, case, obs):
+        if "returned" not in obs["outcome"] or "returned" not in obs["outcome1"]:
+            return None
+        if len(obs["fired"]) > self.max_events:
+            return None
+        # labels: time := position in the N-thread stream (the observer blanks wall-clock times; events must be
+        # distinguishable), thread id := one id per (result location, real thread) — a worker that runs two tests one
+        # after the other is two "threads" for the writer, whose only use of the id is the key of the open step
+        table = {}
+        a = []
+        for i, e in enumerate(obs["fired"]):
+            e = dict(e, t=i + 1)
+            if "tid" in e:
+                e["tid"] = table.setdefault((C.case_hash(e.get("loc")), e["tid"]), len(table) + 1)
+            a.append(e)
+        b = relabel(obs["fired1"], a)
+        if b is None:
+            b = [dict(e, t=i + 1) for i, e in enumerate(obs["fired1"])]      # not the same events: the check says so
+        return {"a": _R.wire(a), "b": _R.wire(b)}
+
+    def compare(self, case, obs, ans):
+        if "error" in ans:
+            return "model error: " + str(ans["error"])
+        if not ans["check"]:
+            return ("the two schedules do not satisfy the hypotheses of C05.report_independent_of_schedule: nodup=%s perm=%s "
+                    "dependent-order=%s disciplined=%s first offending pair: %s"
+                    % (ans["nodup"], ans["perm"], ans["order"], ans["disciplined"], _R.unwire(ans["bad_pair"])))
+        if not ans["views_equal"] or not ans["disciplined_b"]:
+            return "the check holds but the folded views differ (would contradict the theorem)"
+        return None
+
+    def nontrivial(self, case, obs):
+        return len(obs["fired"]) >= 8 and obs["fired"] != obs["fired1"]
+
+    def features(self, case, obs):
+        n = len(obs["fired"])
+        f = ["events=%s" % ("<=40" if n <= 40 else "41-100" if n <= 100 else "101-170" if n <= 170 else ">170 (not checked)"),
+             "threads=%d" % case["project"]["nb_threads"]]
+        same = [dict(e, tid=0, t=0) for e in obs["fired"]] == [dict(e, tid=0, t=0) for e in obs["fired1"]]
+        f.append("same-order-as-1-thread" if same else "reordered")
+        return f
+
+
 def streams(ctx):
-    return [Run()]
+    return [Run(), Sched()]
